@@ -99,41 +99,57 @@ def passRec (fmt : Fmt) : List VarL → List Nat → Nat → Nat → Except Err 
     | .error er => .error er
     | .ok (bs, rs') => .ok (b :: bs, rs')
 
+/-- the header extent NC_begins starts from: `D_RNDUP(xsz + h_minfree, h_align)` when there is a
+    variable, `xsz` otherwise; never below the old extent -/
+def initExtent (xsz nvars : Nat) (al : Align) (old : Option Old) : Nat :=
+  let beginVar := if nvars > 0 then rndup (xsz + al.hMinfree) al.hAlign else xsz
+  match old with
+  | some o => if beginVar < o.beginVar then o.beginVar else beginVar
+  | none => beginVar
+
+/-- the start of the record section: not before `end_var + v_minfree` nor before the value
+    ncp->begin_rec had on entry, rounded up to 4 and to r_align, never below the old begin_rec -/
+def recStart (al : Align) (beginRec0 endVar : Nat) (old : Option Old) : Nat :=
+  let beginRec := if beginRec0 < endVar + al.vMinfree then endVar + al.vMinfree else beginRec0
+  let beginRec := rndup beginRec 4
+  let beginRec := if al.rAlign > 1 then rndup beginRec al.rAlign else beginRec
+  match old with
+  | some o => if beginRec < o.beginRec then o.beginRec else beginRec
+  | none => beginRec
+
+/-- "exactly one record variable: no record padding" as NC_begins tests it -/
+def packRecsize (recs : List VarL) (recsize : Nat) : Nat :=
+  match recs.getLast? with
+  | some last => if recsize = last.len then last.packed else recsize
+  | none => recsize
+
+def oldFixedBegins (old : Option Old) : List Nat :=
+  match old with
+  | some o => (o.vars.filter (fun p => !p.1)).map (·.2)
+  | none => []
+
+def oldRecBegins (old : Option Old) : List Nat :=
+  match old with
+  | some o => (o.vars.filter (fun p => p.1)).map (·.2)
+  | none => []
+
 /-- NC_begins.  `vars` in definition order; `beginRec0` = the value ncp->begin_rec has on entry
     (0 on a new file, the previous begin_rec after a redef); `old` = ncp->old. -/
 def ncBegins (fmt : Fmt) (xsz : Nat) (vars : List VarL) (al : Align) (beginRec0 : Nat) (old : Option Old) :
     Except Err Layout :=
   let fixed := vars.filter (fun v => !v.isRec)
   let recs := vars.filter (fun v => v.isRec)
-  let beginVar := if vars.length > 0 then rndup (xsz + al.hMinfree) al.hAlign else xsz
-  let beginVar := match old with
-    | some o => if beginVar < o.beginVar then o.beginVar else beginVar
-    | none => beginVar
-  let oldFixed := match old with
-    | some o => (o.vars.filter (fun p => !p.1)).map (·.2)
-    | none => []
-  let oldRec := match old with
-    | some o => (o.vars.filter (fun p => p.1)).map (·.2)
-    | none => []
-  match passFixed fmt fixed oldFixed beginVar with
+  match passFixed fmt fixed (oldFixedBegins old) (initExtent xsz vars.length al old) with
   | .error e => .error e
   | .ok (fb, endVar) =>
-    let beginRec := if beginRec0 < endVar + al.vMinfree then endVar + al.vMinfree else beginRec0
-    let beginRec := rndup beginRec 4
-    let beginRec := if al.rAlign > 1 then rndup beginRec al.rAlign else beginRec
-    let beginRec := match old with
-      | some o => if beginRec < o.beginRec then o.beginRec else beginRec
-      | none => beginRec
+    let beginRec := recStart al beginRec0 endVar old
     let beginVar := match fb with
       | b :: _ => b
       | [] => beginRec
-    match passRec fmt recs oldRec beginRec 0 with
+    match passRec fmt recs (oldRecBegins old) beginRec 0 with
     | .error e => .error e
     | .ok (rb, recsize) =>
-      let recsize := match recs.getLast? with
-        | some last => if recsize = last.len then last.packed else recsize
-        | none => recsize
-      .ok { xsz := xsz, beginVar := beginVar, beginRec := beginRec, recsize := recsize,
+      .ok { xsz := xsz, beginVar := beginVar, beginRec := beginRec, recsize := packRecsize recs recsize,
             fixedBegins := fb, recBegins := rb }
 
 /-- begins of all variables in definition order -/
